@@ -3457,11 +3457,7 @@ static Node *primary(Token **rest, Token *tok) {
     Type *ty = typename(&tok, tok);
     *rest = skip(tok, ")");
 
-    if (is_integer(ty) || ty->kind == TY_PTR)
-      return new_num(0, start);
-    if (is_flonum(ty) && ty->kind != TY_LDOUBLE)
-      return new_num(1, start);
-    return new_num(2, start);
+    return new_num(va_arg_class(ty), start);
   }
 
   if (equal(tok, "__builtin_compare_and_swap")) {
